@@ -370,3 +370,7 @@ Proof.
   split; [vm_compute; reflexivity|].
   split; vm_compute; reflexivity.
 Qed.
+
+Lemma note_control_in_continuation :
+  u8_count [0xc3; 0x0a; 0] None = CRet 2 (mkPos 2 1 1 1).
+Proof. vm_compute. reflexivity. Qed.
